@@ -10,7 +10,11 @@
    single-input single-output nodes one after the other yields exactly the end-to-end
    (source port -> sink port) connections of the original graph through the removed nodes
    (C20_eliminate_preserves_wiring; [conn]/[route] in Partition/Rewrite.v).
-   NOT proved: merge_modules (port-wise contraction of module boundaries) and anything about
+   For merge_modules: removing ONE module boundary yields exactly the wires that do not touch it
+   plus every in-edge joined with the out-edge leaving on the port it arrived on
+   (C20_remove_module_boundary_preserves_wiring), and no edge mentions the boundary afterwards;
+   the sequential model [merge_mbs] is compared with every real merge_modules result.
+   NOT proved: the multi-boundary composition as one end-to-end statement, and anything about
    serde_json -- those are decided per run by the executable comparison [same_dataflow_b]
    (end-to-end wiring through the removed nodes = wiring of the result, surviving nodes
    untouched) and [graph_eqb] on the real before/after graphs (props/C20.py). *)
@@ -38,6 +42,23 @@ Theorem C20_eliminate_preserves_wiring : forall (rs : list N) (es : list edge) (
   forall w, In w (map wire_of es') <-> conn es rs w.
 Proof. exact elim_preserves_wiring. Qed.
 Print Assumptions C20_eliminate_preserves_wiring.
+
+Theorem C20_remove_module_boundary_preserves_wiring : forall (es : list edge) (m k : N) (es' : list edge),
+  remove_mb es m k = MbOk es' ->
+  (forall w, In w (map wire_of es') <-> conn_mb es m w) /\
+  (forall e, In e es' -> e_src e <> m /\ e_dst e <> m).
+Proof.
+  intros es m k es' H. split; [exact (remove_mb_preserves_conn es m k es' H)|exact (remove_mb_no_m es m k es' H)].
+Qed.
+Print Assumptions C20_remove_module_boundary_preserves_wiring.
+
+(* non-vacuity: a two-port boundary 9 (ports 0 and 1) joins port-wise; mismatched ports are an Err *)
+Example C20_module_boundary_example :
+  remove_mb [mkEdge 1 1 9 PElided (PInt false 0); mkEdge 2 2 9 PElided (PInt false 1);
+             mkEdge 3 9 3 (PInt false 1) (PPath "neg"); mkEdge 4 9 3 (PInt false 0) (PPath "pos")] 9 7
+  = MbOk [mkEdge 7 1 3 PElided (PPath "pos"); mkEdge 7 2 3 PElided (PPath "neg")] /\
+  remove_mb [mkEdge 1 1 9 PElided (PInt false 0); mkEdge 3 9 3 (PInt false 1) PElided] 9 7 = MbErr.
+Proof. vm_compute. split; reflexivity. Qed.
 
 (* non-vacuity: src -> union(2) -> tee(3) -> [pos]d : both unary nodes removed, ports kept end to end *)
 Example C20_eliminate_example :
